@@ -340,6 +340,64 @@ type pathQuery struct {
 type pqState struct {
 	b        *ssa.BasicBlock
 	deferred bool
+	pred     *ssa.BasicBlock
+}
+
+// decidedSucc: block b was entered from pred and ends in a branch on a phi of b (or on a
+// nil test of one): the incoming edge fixes the phi, hence the branch. This is the shape an
+// inlined helper leaves behind (`end: err := r; if err != nil {`).
+func decidedSucc(b, pred *ssa.BasicBlock) (*ssa.BasicBlock, bool) {
+	if pred == nil || len(b.Succs) != 2 {
+		return nil, false
+	}
+	ifi, ok := b.Instrs[len(b.Instrs)-1].(*ssa.If)
+	if !ok {
+		return nil, false
+	}
+	idx := -1
+	for i, p := range b.Preds {
+		if p == pred {
+			if idx >= 0 {
+				return nil, false // two edges from the same block
+			}
+			idx = i
+		}
+	}
+	if idx < 0 {
+		return nil, false
+	}
+	cond, pol := ifi.Cond, true
+	for {
+		if u, ok := cond.(*ssa.UnOp); ok && u.Op == token.NOT {
+			cond, pol = u.X, !pol
+			continue
+		}
+		break
+	}
+	pick := func(truth bool) (*ssa.BasicBlock, bool) {
+		if truth == pol {
+			return b.Succs[0], true
+		}
+		return b.Succs[1], true
+	}
+	if ph, ok := cond.(*ssa.Phi); ok && ph.Block() == b {
+		if cb, isC := constBool(ph.Edges[idx]); isC {
+			return pick(cb)
+		}
+		return nil, false
+	}
+	if x, neq, ok := nilCompare(cond); ok {
+		if ph, ok := resolveLocal(x).(*ssa.Phi); ok && ph.Block() == b {
+			e := ph.Edges[idx]
+			switch {
+			case isNilConst(e):
+				return pick(!neq)
+			case provablyNonNilErr(e, pred, 0):
+				return pick(neq)
+			}
+		}
+	}
+	return nil, false
 }
 
 func (q *pathQuery) run(startBlock *ssa.BasicBlock, startIdx int, deferred bool) []pathEnd {
@@ -349,13 +407,14 @@ func (q *pathQuery) run(startBlock *ssa.BasicBlock, startIdx int, deferred bool)
 		b        *ssa.BasicBlock
 		idx      int
 		deferred bool
+		pred     *ssa.BasicBlock
 	}
-	work := []item{{startBlock, startIdx, deferred}}
+	work := []item{{startBlock, startIdx, deferred, nil}}
 	for len(work) > 0 {
 		it := work[len(work)-1]
 		work = work[:len(work)-1]
 		if it.idx == 0 {
-			st := pqState{it.b, it.deferred}
+			st := pqState{it.b, it.deferred, it.pred}
 			if seen[st] {
 				continue
 			}
@@ -383,11 +442,15 @@ func (q *pathQuery) run(startBlock *ssa.BasicBlock, startIdx int, deferred bool)
 		if stopped {
 			continue
 		}
+		only, decided := decidedSucc(it.b, it.pred)
 		for _, s := range it.b.Succs {
+			if decided && s != only {
+				continue
+			}
 			if q.blockEdge != nil && !q.blockEdge(it.b, s) {
 				continue
 			}
-			work = append(work, item{s, 0, d})
+			work = append(work, item{s, 0, d, it.b})
 		}
 	}
 	return bad
@@ -699,4 +762,122 @@ func freshSlice(v ssa.Value) (constLen int64, lenVal ssa.Value, ok bool) {
 		}
 	}
 	return 0, nil, false
+}
+
+// sameExpr: a and b are structurally the same side-effect-free expression over the same
+// SSA values (go/ssa does no common-subexpression elimination: `x.f` read twice is two
+// loads of two FieldAddrs). Loads are compared by address expression only - the caller must
+// know that no store to that location lies between them (fields of a parsed, read-only value).
+func sameExpr(a, b ssa.Value) bool { return sameExprD(a, b, 0) }
+
+func sameExprD(a, b ssa.Value, d int) bool {
+	if a == b {
+		return true
+	}
+	if d > 6 || a == nil || b == nil {
+		return false
+	}
+	switch x := a.(type) {
+	case *ssa.UnOp:
+		y, ok := b.(*ssa.UnOp)
+		return ok && x.Op == y.Op && sameExprD(x.X, y.X, d+1)
+	case *ssa.FieldAddr:
+		y, ok := b.(*ssa.FieldAddr)
+		return ok && x.Field == y.Field && sameExprD(x.X, y.X, d+1)
+	case *ssa.Field:
+		y, ok := b.(*ssa.Field)
+		return ok && x.Field == y.Field && sameExprD(x.X, y.X, d+1)
+	case *ssa.Const:
+		y, ok := b.(*ssa.Const)
+		return ok && x.String() == y.String()
+	case *ssa.Call:
+		y, ok := b.(*ssa.Call)
+		if !ok || calleeKey(&x.Call) != calleeKey(&y.Call) || len(x.Call.Args) != len(y.Call.Args) {
+			return false
+		}
+		if k := calleeKey(&x.Call); k != "builtin len" && k != "builtin cap" {
+			return false
+		}
+		for i := range x.Call.Args {
+			if !sameExprD(x.Call.Args[i], y.Call.Args[i], d+1) {
+				return false
+			}
+		}
+		return true
+	}
+	return false
+}
+
+// infeasibleEdges: which incoming edges of block j cannot have been the one taken, given
+// the branch facts that hold at block `at` (dominated by j) about phis of j. The idiom this
+// resolves is the (value, ok) / (value, err) result pair of an inlined helper: after
+// `if ok {` only the edges that deliver ok=true are possible, so the value phi is known.
+// Sound because a fact's branch is dominated by j and dominates `at`: on every path it is
+// executed after the last entry into j.
+func infeasibleEdges(j, at *ssa.BasicBlock) map[int]bool {
+	out := map[int]bool{}
+	if j == nil || at == nil {
+		return out
+	}
+	for _, f := range allFacts(at) {
+		cond, pol := f.Cond, f.Pol
+		for {
+			if u, ok := cond.(*ssa.UnOp); ok && u.Op == token.NOT {
+				cond, pol = u.X, !pol
+				continue
+			}
+			break
+		}
+		if ph, ok := cond.(*ssa.Phi); ok && ph.Block() == j && isBoolType(ph.Type()) {
+			for i, e := range ph.Edges {
+				if cb, isC := constBool(e); isC && cb != pol {
+					out[i] = true
+				}
+			}
+			continue
+		}
+		if x, neq, ok := nilCompare(cond); ok {
+			if ph, ok := resolveLocal(x).(*ssa.Phi); ok && ph.Block() == j {
+				nonNil := neq == pol
+				for i, e := range ph.Edges {
+					switch {
+					case nonNil && isNilConst(e):
+						out[i] = true
+					case !nonNil && provablyNonNilErr(e, j.Preds[i], 0):
+						out[i] = true
+					}
+				}
+			}
+		}
+	}
+	return out
+}
+
+// resolveAt follows v through local cells and through phis whose incoming edge is determined
+// by the facts holding at block `at`.
+func resolveAt(v ssa.Value, at *ssa.BasicBlock) ssa.Value {
+	for depth := 0; depth < 8; depth++ {
+		v = resolveLocal(v)
+		ph, ok := v.(*ssa.Phi)
+		if !ok {
+			return v
+		}
+		inf := infeasibleEdges(ph.Block(), at)
+		var only ssa.Value
+		n := 0
+		for i, e := range ph.Edges {
+			if inf[i] {
+				continue
+			}
+			if only == nil || e != only {
+				n++
+				only = e
+			}
+		}
+		if n != 1 {
+			return v
+		}
+		v = only
+	}
+	return v
 }
